@@ -225,6 +225,26 @@ func c07(r *engine.Report, p *engine.Program) {
 
 	// O7 positivity of peer-supplied costs (shared with C01-R4)
 	costPositivity(r, p, "O7-cost-positive")
+
+	// O8 a session that is rejected must not disturb other peers: it never removes the ID it merely
+	// announced (shared with C11-R4)
+	if rp := p.Func("(*netceptor.Netceptor).runProtocol"); rp != nil {
+		conns := p.Field("netceptor", "Netceptor", "connections")
+		var ins *ssa.MapUpdate
+		for _, a := range engine.FieldAccessesIn(rp, conns) {
+			if mu, ok := a.Instr.(*ssa.MapUpdate); ok {
+				ins = mu
+			}
+		}
+		if ins != nil {
+			wr := removalWrappers(p)
+			noEarlyRemoval(r, p, "O8-no-collateral-removal", rp, ins, engine.Unwrap(ins.Key), removalsIn(p, rp, wr))
+		} else {
+			r.Add("O8-no-collateral-removal", "runProtocol: connection-table insertion", rp.Pos(), engine.Violated, "insertion site not found")
+		}
+	}
+	// O9 no function of the cone returns with a lock still held (a leaked lock wedges the node)
+	lockBalance(r, p, "O9-lock-balance", scope, lockFields)
 }
 
 func chanDesc(v ssa.Value) string {
